@@ -55,7 +55,10 @@ pub fn init_set(interp: &mut Interpreter) {
     interp
         .set_prototype
         .borrow_mut()
-        .set_property(constructor_key, JsValue::Object(constructor.clone()));
+        .define_property(
+            constructor_key,
+            crate::value::Property::with_attributes(JsValue::Object(constructor.clone()), true, false, true),
+        );
 
     // Add Symbol.species getter
     interp.register_species_getter(&constructor);
